@@ -143,9 +143,10 @@ def main():
         if a.replay:
             cases = []
         lines = [c.line for c in cases]
+        mlines = [c.meta.get("mline", c.line) for c in cases]      # oracle-only cases send a cheap placeholder to the model
         group_starts = getattr(s, "group_starts", None)
         gs = group_starts(cases) if group_starts else None
-        ho, mo = ajlib.run_both(exe, lines, group_starts=gs, driver=getattr(s, "uses_driver", True))
+        ho, mo = ajlib.run_both(exe, mlines, hlines=lines, group_starts=gs, driver=getattr(s, "uses_driver", True))
         nd = 0
         nf = 0
         for i, c in enumerate(cases):
@@ -154,7 +155,7 @@ def main():
                 continue
             total += 1
             m = mo[i] if mo else None
-            if m is not None:
+            if m is not None and not c.meta.get("nocompare"):
                 d = s.compare(c, h, m)
                 if d:
                     nd += 1
